@@ -284,6 +284,11 @@ func propC14(c *Ctx) {
 		}
 	}
 
+	rvf := c.Rule("variadic-fresh", "a function run from Go gets its variadic parameter as freshly allocated storage, like the in-script call sequence", 1)
+	ruleVariadicFresh(c, rvf, vf)
+	rf0 := c.Rule("frame0-reset", "a child VM that is invoked repeatedly starts each call from re-initialised frame state (every frame field run-time code reads is stored by Run's prologue)", 3)
+	ruleFrame0Reset(c, rf0, vf)
+
 	// ---- pool-zero ------------------------------------------------------------------------------------
 	rz := c.Rule("pool-zero", "every path to sync.Pool.Put(vm) resets the whole VM (a whole-struct store, or a store to every field including the abort flag) and its private Bytecode: a pooled VM must not carry the abort flag, handlers or data of its previous use", 1)
 	rulePoolZero(c, rz, vf, pf)
@@ -440,6 +445,14 @@ func propC06(c *Ctx) {
 		}
 	}
 
+	// ---- a VM that recovered a panic can run further scripts: its state is re-initialised ----
+	rrr := c.Rule("run-reset", "every VM field that run-time code stores is re-initialised by Run's prologue on every path (a run ended by a recovered panic leaves arbitrary state behind)", 5)
+	ruleRunReset(c, rrr, vf)
+	rfr := c.Rule("frame0-reset", "every call-frame field run-time code reads is stored for frame 0 by Run's prologue on every path (the deferred clean-up is skipped on the panic path)", 3)
+	ruleFrame0Reset(c, rfr, vf)
+	rhn := c.Rule("handler-nil", "every dereference of a frame's function pointer in code the panic handler reaches is dominated by a nil test (that code runs outside any recover)", 1)
+	ruleHandlerNil(c, rhn, vf)
+
 	// ---- child-flag ---------------------------------------------------------------------------------------
 	rc := c.Rule("child-flag", "a child VM takes the parent's recovery flag when acquired (otherwise a panic inside a function invoked from Go skips the function's own catch/finally or escapes to the host)", 1)
 	if pf := getPoolFacts(c, rc, vf); pf != nil {
@@ -545,6 +558,11 @@ func propC09(c *Ctx) {
 		c.Check(ra, "vmPool abort visits every child", l.Pos(pf.abort.Pos()), ranged, "ranges over the registered children", "the pool's abort does not range over the registered children")
 	}
 
+	rra := c.Rule("register-all", "every child VM that the pool hands out is registered in the pool's map on every path (Abort reaches children only through that map)", 2)
+	if pf != nil {
+		ruleRegisterAll(c, rra, pf)
+	}
+
 	// ---- pool-lock ---------------------------------------------------------------------------------
 	rl := c.Rule("pool-lock", "every access to the pool's registry of child VMs happens after mu.Lock() of the same pool with no Unlock in between (Abort runs on another goroutine than acquire/release)", 4)
 	if pf != nil {
@@ -585,6 +603,10 @@ func propC09(c *Ctx) {
 		pos := l.Pos(vf.Run.Pos())
 		if offending != nil {
 			pos = l.Pos(offending.Pos())
+		}
+		if offending != nil {
+			rpc := c.Rule("ctx-precheck", "while Run clears the abort flag at entry, every goroutine that starts VM.Run under a context is preceded by a non-blocking test of ctx.Done() (a cancellation already pending when the goroutine starts would otherwise be erased)", 1)
+			ruleCtxPrecheck(c, rpc, vf)
 		}
 		c.Check(rn, "VM.Run prologue", pos, offending == nil, "the prologue does not touch the abort flag", "Run stores to the abort flag before entering the loop: an Abort between Run's entry and this store is lost and the script never stops")
 	}
